@@ -116,3 +116,20 @@ def run(ctx):
         traces.append(history(tid, rng, solver, circuit, steps,
                               {"origin": "time-reversed", "edges": cz.graph_edges1(g)}))
     ctx.judge("Trace_Moves", traces, label="J: real mutation moves on real circuits", xmx="6g")
+    # the circuits the deterministic solver hands out (also the starting points of the alternate-target and hybrid solvers):
+    # every connected 4-vertex graph and random 5 - 6 vertex graphs, judged by Trace_CircuitAll (EmissionShape, EmittedOnce)
+    recs = []
+    targets = [g for g in cz.all_graphs(4) if nx.is_connected(g)]
+    for n, cnt in ((5, 25 if ctx.quick else 300), (6, 10 if ctx.quick else 150)):
+        while cnt:
+            g = nx.gnp_random_graph(n, rng.choice([0.4, 0.6]), seed=rng.randrange(2 ** 31))
+            if nx.is_connected(g):
+                targets.append(g)
+                cnt -= 1
+    for k, g in enumerate(targets):
+        rec, _circuit = c02.solve(g, "g", "stabilizer")
+        rec.update({"tid": 100000 + k, "meta": {"n": g.number_of_nodes(), "edges": rec["target"]["edges"], "kind": "solver output"},
+                    "events": [], "check_emitters": False})
+        recs.append(rec)
+    ctx.judge("Trace_CircuitAll", recs, label="M: deterministic-solver circuits: emission shape over all outcome branches",
+              mode="forall")
